@@ -117,11 +117,12 @@ def run(ctx):
                     before = listing(root + '/D')
                     extra = rng.choice([[], [], [], ['--no-progress'], ['--fsync'], ['--no-perms'], ['--workers', '1'], ['--no-progress', '--no-timestamps']])    # must not matter for backups
                     utf8ok = all(isutf(n) and not n.startswith(b'-') for n in list(init) + [name])
+                    envx = rng.choice([None, None, dict(VERSION_CONTROL='none'), dict(VERSION_CONTROL='existing'), dict(VERSION_CONTROL='numbered'), dict(VERSION_CONTROL='off', SIMPLE_BACKUP_SUFFIX='.bak')])   # cp's variables are not xcp's options
                     if hi % 3 == 2 and utf8ok:
                         # the destination named by a BARE relative file name (no directory component), from inside the directory
-                        r = scen.run_xcp(root, [f'--backup={mode}', '--driver', driver] + extra + [b'../S/' + name, name], cwd=root + '/D', trace=False)
+                        r = scen.run_xcp(root, [f'--backup={mode}', '--driver', driver] + extra + [b'../S/' + name, name], cwd=root + '/D', trace=False, env_extra=envx)
                     else:
-                        r = scen.run_xcp(root, ['-r', '-T', f'--backup={mode}', '--driver', driver] + extra + ['S', 'D'], trace=False)
+                        r = scen.run_xcp(root, ['-r', '-T', f'--backup={mode}', '--driver', driver] + extra + ['S', 'D'], trace=False, env_extra=envx)
                     after = listing(root + '/D')
                     states.append((r.cls, after))
                     ctx.count(f'mode.{mode}'); ctx.count(f'exit.{r.cls}')
@@ -227,6 +228,22 @@ def run(ctx):
                                       dict(name=hx(name), driver=driver, mode=mode, plan=plan, exit=r.cls, after=show(after), init=show(init), stderr=r.stderr[-300:]),
                                       f'C09: the backup rename failed ({en}) and the previous version of {name!r} exists nowhere afterwards (exit {r.cls}, {driver}, --backup={mode})')
         ctx.count('rename_fault_points', fp)
+        # --- the LISTING of the destination's directory fails part-way while looking for existing backups (EIO on getdents64): with an
+        # incomplete listing no number may be chosen — the repaired defect F22 picked an existing backup's number and replaced it
+        for driver in ('parfile', 'parblock'):
+            for mode in ('numbered', 'auto'):
+                for nth in (1, 2, 3):
+                    init = {b'f': b'OLD-CONTENT', b'f.~1~': b'bk1', b'f.~2~': b'bk2', b'zz': b'other'}
+                    setup(root, init); put_source(root, b'f', b'NEW-CONTENT-LONGER')
+                    plan = [f'fail getdents64 ={root}/D {nth} {E["EIO"]}', f'fail getdents64 =D {nth} {E["EIO"]}']
+                    r = scen.run_xcp(root, ['-r', '-T', f'--backup={mode}', '--driver', driver, 'S', 'D'], plan=plan, trace=True)
+                    after = listing(root + '/D')
+                    fired = any(e.get('inj') for e in r.trace)
+                    ctx.count(f'listing_fault.{"fired" if fired else "not_fired"}.{r.cls}'); ctx.case(('listing-fault', driver, mode, nth), fired)
+                    lost = [v for v in init.values() if v not in after.values()]
+                    if fired and lost:
+                        ctx.violation(f'listing-fault-{driver}-{mode}-{nth}.json', dict(driver=driver, mode=mode, plan=plan, exit=r.cls, after=show(after), init=show(init)),
+                                      f'C09: the directory listing failed while looking for backups (getdents64 #{nth} EIO) and the version {hx(lost[0])} exists nowhere afterwards (exit {r.cls}, {driver}, --backup={mode})')
         # --- versions that differ in content only: same length, same modification time (releases with clamped timestamps; xcp
         # itself copies the source's mtime onto the destination): every overwrite still takes its backup
         T0 = 1_000_000_000_123_456_789
